@@ -13,3 +13,8 @@ open Chess.Props.C11
 #print axioms search_some
 #print axioms search_some_spec
 #print axioms cli_game_loop_never_asserts
+#print axioms referee_lock_step
+#print axioms referee_game_legal
+#print axioms referee_checkmate_truthful
+#print axioms referee_didnt_move_truthful
+#print axioms referee_loop_moves
